@@ -26,6 +26,10 @@ ALLOC_DEFS = [
     "-include", os.path.join(VERIF, "sim", "vsim_alloc.h"),
 ]
 
+# harness state shared by all simulated threads (allocation table, clocks, entropy streams, probes): accessed under the scheduler's
+# hidden hand-off, so it must not be instrumented by ThreadSanitizer (it would be reported as racing with itself)
+NOTSAN_IN_TSAN = {"seams.c"}
+
 SKIP_SRC = re.compile(r"(sfzutf|testsupp|/test/|matrixsslNet\.c|matrixsslSocket\.c|psStat\.c)")
 
 WRAPS = ["clock_gettime", "gettimeofday", "time", "open", "read", "close",
@@ -159,7 +163,7 @@ def main():
         if fn.endswith(".c"):
             obj = os.path.join(outdir, "sim", fn[:-2] + ".o")
             fl = list(vflags)
-            if fn.startswith("nosan_"):
+            if fn.startswith("nosan_") or (variant == "tsan" and fn in NOTSAN_IN_TSAN):
                 fl = [f for f in fl if not f.startswith("-fsanitize") and not f.startswith("-fno-sanitize")]
             cl = [cc, "-c", "-o", obj, p] + incs + fl + ["-DMATRIXSSL_VERIF", "-DVSIM_VARIANT_" + variant.upper(), "-Wall", "-Wno-unused-function", "-MMD", "-MF", obj[:-2] + ".d"]
         elif fn.endswith(".cc"):
